@@ -40,6 +40,7 @@ type Obligation struct {
 	AutoKeys   []string   // speculative loop-frame keys checked together (aligned with Parts)
 	FailedAuto []string   // those of AutoKeys whose condition did not discharge
 	quickOnly  bool
+	Static     bool // decided by a scan of the program text (lock-discipline coverage), not by a solver
 
 	replayConfirmed bool
 	replayNote      string
@@ -678,6 +679,13 @@ func incrementalGroup(c *Ctx, obls []*Obligation) {
 }
 
 func solveAll(obls []*Obligation, timeoutS int, workers int) {
+	var dyn []*Obligation
+	for _, o := range obls {
+		if !o.Static {
+			dyn = append(dyn, o)
+		}
+	}
+	obls = dyn
 	incrementalPass(obls, workers)
 	var wg sync.WaitGroup
 	ch := make(chan *Obligation)
